@@ -17,6 +17,7 @@ type c20Case struct {
 	Routes []rRoute `json:"routes"`
 	Idx    int      `json:"idx"`
 	Args   []string `json:"args"`
+	Warm   int      `json:"warm,omitempty"` // >0: Reverse is called once when only Routes[:Warm] are registered and named
 }
 
 func c20Run(ci any) Result {
@@ -35,6 +36,11 @@ func c20Run(ci any) Result {
 			return ctx.NoContent(http.StatusOK)
 		})
 		rt.Name = fmt.Sprintf("route-%d", i) // unique names: Reverse picks an arbitrary route among equal names
+		if c.Warm > 0 && i == c.Warm-1 {
+			// reverse routing is used before the rest of the application is registered
+			e.Reverse("route-0", "w1", "w2", "w3")
+			e.Reverse(fmt.Sprintf("route-%d", c.Idx), "w1")
+		}
 	}
 	e.Use(func(next echo.HandlerFunc) echo.HandlerFunc {
 		return func(ctx echo.Context) error {
@@ -56,6 +62,9 @@ func c20Run(ci any) Result {
 	}
 	toks, names, after := rNorm(rt.Path)
 	tags := []string{}
+	if c.Warm > 0 && c.Warm < len(c.Routes) {
+		tags = append(tags, "reverse-before-later-registrations")
+	}
 	valid := !after && len(c.Args) == len(names) && rt.Method != routeNotFound
 	k := 0
 	escaped := strings.Contains(rt.Path, `\:`)
@@ -167,7 +176,11 @@ func c20Gen(r *rand.Rand, tier string) []any {
 					args[r.Intn(len(args))] = []string{"", "a/b"}[r.Intn(2)] // out of scope value
 				}
 			}
-			out = append(out, &c20Case{Routes: routes, Idx: idx, Args: args})
+			cs := &c20Case{Routes: routes, Idx: idx, Args: args}
+			if len(routes) > 1 && r.Intn(4) == 0 {
+				cs.Warm = 1 + r.Intn(len(routes)-1)
+			}
+			out = append(out, cs)
 		}
 	}
 	return out
@@ -184,6 +197,9 @@ func c20Shrink(ci any) []any {
 		d.Routes = append(append([]rRoute(nil), c.Routes[:i]...), c.Routes[i+1:]...)
 		if i < c.Idx {
 			d.Idx--
+		}
+		if i < c.Warm {
+			d.Warm--
 		}
 		out = append(out, &d)
 	}
